@@ -703,6 +703,8 @@ class Extract:
         self.lift_block = None
         self.lift_stmt_sig = None
         self.lift_stmt_tail = None
+        self.lift_stmt_until = None
+        self.lift_stmt_nth = None
         self.lifted_contract = []
         self.novac = False
         self.derive = None
@@ -855,6 +857,9 @@ def parse_template(path):
             elif key.startswith('lv-type '):
                 # type annotation for the result variable __lvK introduced by R10 (needed when a loop `ensures` names it before inference)
                 cur.lv_types[int(key[len('lv-type '):])] = val
+            elif re.match(r'lift-stmt\[\d+\]$', key):
+                cur.lift_stmt = val
+                cur.lift_stmt_nth = int(key[len('lift-stmt['):-1])
             elif key == 'lift-stmt':
                 # R6c: the block statement (for/while/loop/if .. { }) that starts at the unique occurrence of this literal
                 cur.lift_stmt = val
@@ -862,6 +867,9 @@ def parse_template(path):
                 cur.lift_stmt_sig = val
             elif key == 'lift-stmt-tail':
                 cur.lift_stmt_tail = val
+            elif key == 'lift-stmt-until':
+                # the lifted text is the statement SEQUENCE from the lift-stmt literal up to (not including) this literal
+                cur.lift_stmt_until = val
             elif key == 'lifted-contract':
                 cur.lifted_contract = []
                 target = cur.lifted_contract
@@ -948,17 +956,6 @@ def render_extract(ex, vac=False, strip_proof=False):
         body = rule_R5(body, log)
     if 'R4' in ex.rules:
         body = rule_R4(body, log)
-    if 'R12' in ex.rules:
-        # R12 mut-self: `fn f(mut self, ..) { BODY }` -> `fn f(self, ..) { let mut __self = self; BODY[self := __self] }`
-        # (Verus does not support a `mut self` parameter; rebinding a by-value parameter mutably is the same function)
-        header, n_ = re.subn(r'\(\s*mut\s+self\b', '(self', header, count=1)
-        if n_ != 1:
-            raise Undecided('R12: no `mut self` parameter')
-        toks_ = tokenize(body)
-        body = ''.join(('__self' if (k_ == 'id' and t_ == 'self') else t_) for (k_, t_, _, _) in toks_)
-        bo_ = body.index('{')
-        body = body[:bo_ + 1] + ' let mut __self = self;' + body[bo_ + 1:]
-        log.append({'rule': 'R12', 'note': '`mut self` parameter rebound as `let mut __self = self;`, `self` renamed to `__self` in the body'})
     if 'R11' in ex.rules:
         body = rule_R11(body, log)
     if 'R10' in ex.rules:
@@ -1091,9 +1088,14 @@ def render_extract(ex, vac=False, strip_proof=False):
         if not ex.lift_stmt_sig:
             raise Undecided('lift-stmt without lift-stmt-as')
         lit = ex.lift_stmt
-        if body.count(lit) != 1:
+        nth_ = getattr(ex, 'lift_stmt_nth', None)
+        if nth_ is None and body.count(lit) != 1:
             raise Undecided('lift-stmt: literal %r occurs %d times' % (lit, body.count(lit)))
-        p0 = body.index(lit)
+        if nth_ is not None and body.count(lit) < nth_:
+            raise Undecided('lift-stmt[%d]: literal %r occurs %d times' % (nth_, lit, body.count(lit)))
+        p0 = -1
+        for _k in range(nth_ or 1):
+            p0 = body.index(lit, p0 + 1)
         toks = tokenize(body)
         i0 = None
         for i_, t_ in enumerate(toks):
@@ -1136,6 +1138,14 @@ def render_extract(ex, vac=False, strip_proof=False):
         if end is None:
             raise Undecided('lift-stmt: no block found after the literal')
         stmt = body[toks[i0][2]:toks[end][3]]
+        if ex.lift_stmt_until == '<end of function>':
+            # the statement sequence up to the closing brace of the function body
+            stmt = body[toks[i0][2]:body.rindex('}')].rstrip()
+        elif ex.lift_stmt_until:
+            q0 = body.find(ex.lift_stmt_until, toks[i0][2])
+            if q0 < 0 or body.count(ex.lift_stmt_until, toks[i0][2]) != 1:
+                raise Undecided('lift-stmt-until: literal %r not found exactly once after the statement' % ex.lift_stmt_until)
+            stmt = body[toks[i0][2]:q0].rstrip()
         sig = ex.lift_stmt_sig
         stmt_is_async = sig.lstrip().startswith('async ')
         if stmt_is_async:
@@ -1150,6 +1160,17 @@ def render_extract(ex, vac=False, strip_proof=False):
         ex = __import__('copy').copy(ex)
         ex.ret = None
         ex.rename = None
+    if 'R12' in ex.rules:
+        # R12 mut-self: `fn f(mut self, ..) { BODY }` -> `fn f(self, ..) { let mut __self = self; BODY[self := __self] }`
+        # (Verus does not support a `mut self` parameter; rebinding a by-value parameter mutably is the same function)
+        header, n_ = re.subn(r'\(\s*mut\s+self\b', '(self', header, count=1)
+        if n_ != 1:
+            raise Undecided('R12: no `mut self` parameter')
+        toks_ = tokenize(body)
+        body = ''.join(('__self' if (k_ == 'id' and t_ == 'self') else t_) for (k_, t_, _, _) in toks_)
+        bo_ = body.index('{')
+        body = body[:bo_ + 1] + ' let mut __self = self;' + body[bo_ + 1:]
+        log.append({'rule': 'R12', 'note': '`mut self` parameter rebound as `let mut __self = self;`, `self` renamed to `__self` in the body'})
     if ex.lift_async is not None:
         # R6b: lift the k-th `async move { .. }` block into an `async fn NAME(PARAMS) -> RET { .. }`; the block is
         # replaced by a call `NAME(args)` (creating the same future: the captured variables are moved into it)
@@ -1797,7 +1818,7 @@ def run_unit(tpl, workdir, seed=None, known_labels=()):
     r['shape'] = gen.get('shape', {})
     if gen.get('missing_items'):
         r['missing_items'] = gen['missing_items']
-        if r['status'] == 'ok':
+        if r['status'] == 'ok' or (r['status'] == 'undecided' and r.get('reason') == 'no obligations generated'):
             r['status'] = 'undecided'
             r['reason'] = 'item(s) left out, anchor lost: ' + '; '.join(gen['missing_items'])[:400]
     return r
